@@ -1,8 +1,10 @@
 (** C03 — the server half of the model is what handlers.go does: the hand-written table
     ClientModel.handler_calls equals the interpretation of the backend-call events that
-    go2coq's HandlerGen extracts from p9/handlers.go (gen/HandlerGen.v, handler_traces:
-    "lookup:<fid field>", "call:<receiver>.<Method>(<argument expressions>)",
-    "delegate:t.do(cs, <uid expression>)"). *)
+    go2coq's HandlerGen extracts from p9/handlers.go (gen/HandlerGen.v, handler_traces_alpha: locals are
+    printed positionally, _v0 is the message t, so that renaming a local in handlers.go changes nothing here):
+    "lookup:_v0.<fid field>=><ref variable>", "call:<ref variable>[.parent].file.<Method>(<argument expressions>)",
+    "delegate:_v0.do(_v1, <uid expression>)" (in a do function _v2 is the uid parameter),
+    "tree:<ref>.parent.pathNode.nameFor(<ref>)" (the entry's name, read under the rename lock). *)
 From Coq Require Import NArith String Ascii List Bool.
 From P9V Require Import gen.ConstGen gen.ClientGen gen.HandlerGen Client.ClientModel.
 Import ListNotations.
@@ -25,7 +27,21 @@ Fixpoint drop (n : nat) (s : string) : string :=
 
 (** events of one handler *)
 Definition events (h : string) : list string :=
+  match find (fun x => fst x =? h) handler_traces_alpha with Some x => snd x | None => [] end.
+
+(** the raw (not renamed) traces, for the statements about which calls a function contains at all *)
+Definition raw_events (h : string) : list string :=
   match find (fun x => fst x =? h) handler_traces with Some x => snd x | None => [] end.
+
+Fixpoint contains_sub (p s : string) : bool :=
+  starts_with p s || match s with EmptyString => false | String _ r => contains_sub p r end.
+
+(** "a=>b" -> (a, b) *)
+Fixpoint split_arrow (acc s : string) : string * string :=
+  match s with
+  | EmptyString => (acc, EmptyString)
+  | String c r => if starts_with "=>" s then (acc, drop 2 s) else split_arrow (acc ++ String c EmptyString) r
+  end.
 
 Definition with_prefix (p : string) (l : list string) : list string :=
   map (drop (String.length p)) (filter (starts_with p) l).
@@ -62,42 +78,48 @@ Fixpoint last_dot (acc cur : string) (s : string) : string * string :=
   end.
 
 (** ---- interpretation of the expressions that occur ---- *)
-Definition field_of (e : string) : string := if starts_with "t." e then drop 2 e else e.
+Definition field_of (e : string) : string := if starts_with "_v0." e then drop 4 e else e.
 
-Definition eval_arg (fs : list (string * val)) (ref_fid : N) (target_field : string) (uid : string) (e : string) : val :=
-  if e =? "uid" then (if uid =? "NoUID" then VN p9_NoUID else fld (field_of uid) fs)
-  else if e =? "refTarget.file" then filev (fld target_field fs)
-  else if e =? "int(t.PID)" then sext32 (fld "PID" fs)
-  else if e =? "int64(t.Offset)" then fld "Offset" fs
-  else if e =? "dataBuf[:count]" then VBuf (fidof (fld "Count" fs))
-  else if (e =? "name") || (e =? "oldName") then VNameOf ref_fid     (* nameFor(ref) read under the rename lock *)
+Definition eval_arg (fs : list (string * val)) (ref_fid : N) (ref_var target_var target_field : string)
+           (uid : option string) (has_name : bool) (e : string) : val :=
+  if starts_with "_v0." e then fld (drop 4 e) fs
+  else if (e =? "_v2") && match uid with Some _ => true | None => false end then
+    match uid with
+    | Some u => if u =? "NoUID" then VN p9_NoUID else fld (field_of u) fs
+    | None => VS e
+    end
+  else if e =? (target_var ++ ".file") then filev (fld target_field fs)
+  else if e =? "int(_v0.PID)" then sext32 (fld "PID" fs)
+  else if e =? "int64(_v0.Offset)" then fld "Offset" fs
+  else if contains_sub "[:" e then VBuf (fidof (fld "Count" fs))     (* the read buffer cut to the count *)
   else if e =? "0" then VN 0
-  else if starts_with "t." e then fld (drop 2 e) fs
+  else if starts_with "_v" e && has_name then VNameOf ref_fid           (* the local holding nameFor(ref) *)
   else VS e.
 
-(** the handler function that makes the backend call, and the uid expression it is given *)
-Definition body_of (t : string) : string * string :=
+(** the handler function that makes the backend call, and the uid expression it is given (do functions only) *)
+Definition body_of (t : string) : string * option string :=
   match with_prefix "delegate:" (events (t ++ ".handle")) with
   | d :: _ =>
       let '(hd, args) := split_call EmptyString d in
-      let fn := if starts_with "t.do" hd then t ++ ".do"
-                else if starts_with "t." hd then drop 2 hd else hd in
-      (fn, nth 1 args "NoUID")
-  | [] => (t ++ ".handle", "NoUID")
+      let fn := if starts_with "_v0.do" hd then t ++ ".do"
+                else if starts_with "_v0." hd then drop 4 hd else hd in
+      (fn, Some (nth 1 args "NoUID"))
+  | [] => (t ++ ".handle", None)
   end.
 
 Definition gen_handler_calls (t : string) (fs : list (string * val)) : list bcall :=
   let '(fn, uid) := body_of t in
   let evs := events fn in
-  let lookups := map field_of (with_prefix "lookup:" evs) in
-  let ref_field := nth 0 lookups "fid" in
-  let target_field := nth 1 lookups "?" in
-  let ref_fid := fidof (fld ref_field fs) in
+  let lookups := map (split_arrow EmptyString) (with_prefix "lookup:" evs) in
+  let '(ref_field, ref_var) := nth 0 lookups ("_v0.fid", "?") in
+  let '(target_field, target_var) := nth 1 lookups ("?", "?") in
+  let ref_fid := fidof (fld (field_of ref_field) fs) in
+  let has_name := existsb (contains_sub ".pathNode.nameFor(") (with_prefix "tree:" evs) in
   map (fun c =>
          let '(hd, args) := split_call EmptyString c in
          let '(recv, meth) := last_dot EmptyString EmptyString hd in
-         mkbc meth (if recv =? "ref.parent.file" then OnParentOf ref_fid else OnFid ref_fid)
-              (map (eval_arg fs ref_fid target_field uid) args))
+         mkbc meth (if recv =? (ref_var ++ ".parent.file") then OnParentOf ref_fid else OnFid ref_fid)
+              (map (eval_arg fs ref_fid ref_var target_var (field_of target_field) uid has_name) args))
       (with_prefix "call:" evs).
 
 (** the T-messages whose handler makes exactly the backend call(s) listed in its trace *)
@@ -117,16 +139,17 @@ Qed.
     (DeleteFID -> fidRef.DecRef -> "call:f.file.Close()"), as for Tclunk *)
 Lemma handler_table_remove : forall fs,
   handler_calls ("tremove", fs) = (gen_handler_calls "tremove" fs ++ [mkbc "Close" (OnFid (fidof (fld "fid" fs))) []])%list /\
-  In "call:f.file.Close()" (events "fidRef.DecRef").
+  In "call:f.file.Close()" (raw_events "fidRef.DecRef").
 Proof. intros fs. split; [cbv -[N.modulo N.land N.ltb N.add N.sub N.min]; reflexivity|vm_compute; tauto]. Qed.
 
 Lemma handler_table_clunk : forall fs,
   handler_calls ("tclunk", fs) = [mkbc "Close" (OnFid (fidof (fld "fid" fs))) []] /\
-  In "call:f.file.Close()" (events "fidRef.DecRef").
+  In "call:f.file.Close()" (raw_events "fidRef.DecRef").
 Proof. intros fs. split; [reflexivity|vm_compute; tauto]. Qed.
 
 (** ---- the handlers with loops and branches: Twalk, Twalkgetattr, Txattrwalk, Tattach ----
-    Their backend calls and delegations, as extracted from handlers.go, are exactly these (so the model's
+    Their backend calls and delegations, as extracted from handlers.go (alpha-renamed: _v0 is the message,
+    "<_vN>" a File-typed local), are exactly these (so the model's
     vocabulary for them — Walk / WalkGetAttr with the names, GetAttr(AttrMaskAll) on the walked file, Close of
     it when that failed, GetXattr(t.Name) / ListXattrs(), Attach() — is what the source has).  WHICH of them
     run, in what order and how often (one walkOne per component, the ENOSYS fallback from WalkGetAttr to
@@ -136,18 +159,18 @@ Definition calls_and_delegations (h : string) : list string :=
   filter (fun e => starts_with "call:" e || starts_with "delegate:" e) (events h).
 
 Lemma walk_handlers_events :
-  calls_and_delegations "twalk.handle" = ["delegate:doWalk(cs, ref, t.Names, false)"] /\
-  calls_and_delegations "twalkgetattr.handle" = ["delegate:doWalk(cs, ref, t.Names, true)"] /\
+  calls_and_delegations "twalk.handle" = ["delegate:doWalk(_v1, _v2, _v0.Names, false)"] /\
+  calls_and_delegations "twalkgetattr.handle" = ["delegate:doWalk(_v1, _v2, _v0.Names, true)"] /\
   calls_and_delegations "doWalk" =
-    ["delegate:walkOne(nil, ref.file, ref.pathNode, nil, getattr)";
-     "delegate:walkOne(qids, walkRef.file, walkRef.pathNode, names[i : i+1], true)"] /\
+    ["delegate:walkOne(nil, _v1.file, _v1.pathNode, nil, _v3)";
+     "delegate:walkOne(_v4, _v11.file, _v11.pathNode, _v2[_v12 : _v12+1], true)"] /\
   calls_and_delegations "walkOne" =
-    ["call:from.WalkGetAttr(names)"; "call:from.Walk(names)"; "call:sf.GetAttr(AttrMaskAll)"; "call:sf.GetAttr(AttrMaskAll)";
-     "call:sf.Close()"; "call:sf.Close()"] /\
-  calls_and_delegations "txattrwalk.handle" = ["call:ref.file.GetXattr(t.Name)"; "call:ref.file.ListXattrs()"] /\
+    ["call:<_v1>.WalkGetAttr(_v3)"; "call:<_v1>.Walk(_v3)"; "call:<_v7>.GetAttr(AttrMaskAll)"; "call:<_v7>.GetAttr(AttrMaskAll)";
+     "call:<_v7>.Close()"; "call:<_v7>.Close()"] /\
+  calls_and_delegations "txattrwalk.handle" = ["call:_v2.file.GetXattr(_v0.Name)"; "call:_v2.file.ListXattrs()"] /\
   calls_and_delegations "tattach.handle" =
-    ["call:attacher.Attach()"; "call:sf.GetAttr(AttrMaskAll)"; "delegate:doWalk(cs, root, names, false)"] /\
-  with_prefix "lookup:" (events "twalk.handle") = ["t.fid"] /\
-  with_prefix "lookup:" (events "twalkgetattr.handle") = ["t.fid"] /\
-  with_prefix "lookup:" (events "txattrwalk.handle") = ["t.fid"].
+    ["call:attacher.Attach()"; "call:<_v2>.GetAttr(AttrMaskAll)"; "delegate:doWalk(_v1, _v4, _v8, false)"] /\
+  with_prefix "lookup:" (events "twalk.handle") = ["_v0.fid=>_v2"] /\
+  with_prefix "lookup:" (events "twalkgetattr.handle") = ["_v0.fid=>_v2"] /\
+  with_prefix "lookup:" (events "txattrwalk.handle") = ["_v0.fid=>_v2"].
 Proof. vm_compute. repeat split. Qed.
